@@ -55,6 +55,7 @@ def run(tier="quick", only_key=None):
     ck.rule("shape", "every generator returns shape (1,)+(N,)*D (multi-channel wrapper: one channel per sub-generator)")
     ck.rule("key-discipline", "every random draw takes a key derived from the `key` argument by splitting; no key is used twice; no other entropy source")
     ck.rule("validation", "zero_mean=False with std_one=True, and std_one with max_one, are rejected by every class offering these options")
+    ck.rule("draw-ranges", "every random parameter of the function-form generators is lo + (hi - lo) * U with U a fresh uniform draw and (lo, hi) the documented option: blob positions / variances in position_range / variance_range times the domain extent, discontinuity limits = min/max of two U(0, L) draws and values in value_range, sine amplitudes / phases / offset in their ranges and wavenumbers 1..cutoff")
     ck.rule("formula", "documented formulas: normalisation order, offset = mean, cutoff mask, power-law amplitude, diffusion, blobs, sine waves, discontinuities, clamping, scaling")
     ck.rule("function-form", "evaluating the function form gen_ic_fun(key) on the grid equals the sampled form __call__(N, key)")
     rows = 0
@@ -232,6 +233,7 @@ def run(tier="quick", only_key=None):
                     ck.ok("function-form", key + "#function-form")
                 else:
                     ck.fail("function-form", key + "#function-form", at, "sampled form differs from gen_ic_fun(key)(grid)")
+            _draw_ranges(ck, it, gen, D, tag, KEY)
             # wrappers
             inner = lambda: it.call(gen("RandomGaussianBlobs"), [D], {"domain_extent": L, "num_blobs": 1})
             g = it.call(gen("ScaledICGenerator"), [inner(), S("sc")])
@@ -333,6 +335,120 @@ def run(tier="quick", only_key=None):
         rule_text="rule instances = (class, D, option row) per rule; distinct = distinct canonical forms / keys",
         trusted=["CPython ast", "vf normal forms", "jax.random split/uniform/normal modelled as lineage-tagged draws"],
     )
+
+
+def _draws_of(p):
+    return sorted({a for a in as_poly(p).all_atoms() if a[0] == "draw"}, key=repr)
+
+
+def _affine(p, lo, hi, used):
+    """p == lo + (hi - lo) * U for a single, not yet used, uniform draw U; returns an error text or None"""
+    ds = _draws_of(p)
+    if len(ds) != 1:
+        return f"expected exactly one random draw, found {len(ds)} in {alg.fmt(as_poly(p))[:120]}"
+    u = ds[0]
+    if u[1] != "uniform":
+        return f"draw is {u[1]}, documented as uniform"
+    if u in used:
+        return "the same random draw is used for two parameters"
+    used.add(u)
+    want = as_poly(lo) + (as_poly(hi) - as_poly(lo)) * Poly.atom(u)
+    if as_poly(p) != want:
+        return f"{alg.fmt(as_poly(p))[:160]} is not lo + (hi - lo)*U with lo = {alg.fmt(as_poly(lo))}, hi = {alg.fmt(as_poly(hi))}"
+    return None
+
+
+def _draw_ranges(ck, it, gen, D, tag, KEY):
+    p0, p1, q0, q1, v0, v1 = (S(n) for n in ("p0", "p1", "q0", "q1", "v0", "v1"))
+    # --- Gaussian blobs
+    cls = gen("RandomGaussianBlobs")
+    g = it.call(cls, [D], {"domain_extent": L, "num_blobs": 2, "position_range": (p0, p1), "variance_range": (q0, q1)})
+    at = loc(cls.find("gen_blob") or cls.find("gen_ic_fun"))
+    obj = it.call(it.getattr(g, "gen_ic_fun"), [], {"key": KEY})
+    used, errs = set(), []
+    blobs = obj.f.get("blob_list")
+    if not isinstance(blobs, (tuple, list)) or len(blobs) != 2:
+        errs.append(f"num_blobs=2 yields {len(blobs) if isinstance(blobs, (tuple, list)) else blobs} blobs")
+    else:
+        for b in blobs:
+            pos, cov = b.f.get("position"), b.f.get("covariance")
+            if tuple(pos.shape) != (D,) or tuple(cov.shape) != (D, D):
+                errs.append(f"blob position / covariance have shapes {pos.shape} / {cov.shape}")
+                continue
+            for j in range(D):
+                errs.append(_affine(pos.data[j], L * p0, L * p1, used))
+                errs.append(_affine(cov.data[j * D + j], L * q0, L * q1, used))
+                for i in range(D):
+                    if i != j and not as_poly(cov.data[j * D + i]).is_zero():
+                        errs.append("covariance is not diagonal")
+    _report(ck, f"exponax.ic.RandomGaussianBlobs#{tag}", at, errs)
+    # --- discontinuities
+    cls = gen("RandomDiscontinuities")
+    g = it.call(cls, [D], {"domain_extent": L, "num_discontinuities": 2, "value_range": (v0, v1)})
+    at = loc(cls.find("gen_discontinuity") or cls.find("gen_ic_fun"))
+    obj = it.call(it.getattr(g, "gen_ic_fun"), [], {"key": KEY})
+    used, errs = set(), []
+    ds = obj.f.get("discontinuity_list")
+    if not isinstance(ds, (tuple, list)) or len(ds) != 2:
+        errs.append("num_discontinuities=2 does not yield two discontinuities")
+    else:
+        for d in ds:
+            lo_l, up_l = d.f.get("lower_limits"), d.f.get("upper_limits")
+            if len(lo_l) != D or len(up_l) != D:
+                errs.append(f"{len(lo_l)} / {len(up_l)} limits for D={D}")
+                continue
+            for j in range(D):
+                lo_e, up_e = as_poly(_item(lo_l[j])), as_poly(_item(up_l[j]))
+                la = [a for a in lo_e.atoms() if a[0] == "fn"]
+                ua = [a for a in up_e.atoms() if a[0] == "fn"]
+                if lo_e != Poly.atom(la[0]) if len(la) == 1 else True:
+                    errs.append(f"lower limit {alg.fmt(lo_e)[:120]} is not the minimum of two draws")
+                    continue
+                if up_e != Poly.atom(ua[0]) if len(ua) == 1 else True:
+                    errs.append(f"upper limit {alg.fmt(up_e)[:120]} is not the maximum of two draws")
+                    continue
+                if la[0][1] != "minimum" or ua[0][1] != "maximum" or sorted(map(repr, la[0][2:])) != sorted(map(repr, ua[0][2:])):
+                    errs.append("lower / upper limits are not min / max of the same pair of draws")
+                    continue
+                for arg in la[0][2:]:
+                    errs.append(_affine(arg, Poly(), L, used))
+            errs.append(_affine(_item(d.f.get("value")), v0, v1, used))
+    _report(ck, f"exponax.ic.RandomDiscontinuities#{tag}", at, errs)
+    # --- sine waves (1-D only)
+    if D == 1:
+        cls = gen("RandomSineWaves1d")
+        a0, a1, f0, f1, o0, o1 = (S(n) for n in ("a0", "a1", "f0", "f1", "o0", "o1"))
+        g = it.call(cls, [1], {"domain_extent": L, "cutoff": 3, "amplitude_range": (a0, a1), "phase_range": (f0, f1), "offset_range": (o0, o1)})
+        at = loc(cls.find("gen_ic_fun"))
+        obj = it.call(it.getattr(g, "gen_ic_fun"), [], {"key": KEY})
+        used, errs = set(), []
+        amp, ph, wn, off = (obj.f.get(n) for n in ("amplitudes", "phases", "wavenumbers", "offset"))
+        if tuple(amp.shape) != (3,) or tuple(ph.shape) != (3,) or tuple(wn.shape) != (3,):
+            errs.append(f"cutoff=3 yields {amp.shape} amplitudes, {ph.shape} phases, {wn.shape} wavenumbers")
+        else:
+            for j in range(3):
+                errs.append(_affine(amp.data[j], a0, a1, used))
+                errs.append(_affine(ph.data[j], f0, f1, used))
+                if as_poly(wn.data[j]) != Poly.const(j + 1):
+                    errs.append(f"wavenumber {j} is {wn.data[j]}, documented 1..cutoff")
+            errs.append(_affine(_item(off), o0, o1, used))
+        if obj.f.get("domain_extent") != L:
+            errs.append("domain_extent not forwarded to the function form")
+        _report(ck, f"exponax.ic.RandomSineWaves1d#{tag}", at, errs)
+
+
+def _item(x):
+    if isinstance(x, Tens):
+        return x.data[0]
+    return x
+
+
+def _report(ck, key, at, errs):
+    errs = [e for e in errs if e]
+    if errs:
+        ck.fail("draw-ranges", key, at, "; ".join(sorted(set(errs)))[:600])
+    else:
+        ck.ok("draw-ranges", key)
 
 
 def _shape(ck, key, at, res, want, what=None):
